@@ -3,6 +3,7 @@ package main
 import (
 	"bytes"
 	"context"
+	"encoding/json"
 	"fmt"
 	"io"
 	"strings"
@@ -82,6 +83,14 @@ func genC02(tier string, seed int64) []Case {
 	// a valid submission paused after validation while its invocation is reset and the next one dispatched
 	add(c02Desc{History: "none", Placement: "validated-then-reset", IDClass: "stale", Op: "response", Submitter: "runtime", NExt: 0})
 	add(c02Desc{History: "ok", Placement: "validated-then-reset", IDClass: "stale", Op: "error", Submitter: "runtime", NExt: 0})
+	// the platform has answered on the invocation's behalf (an extension crashed), the reset has not run yet:
+	// the runtime's own submission for that id comes second and must be refused
+	for _, op := range []string{"response", "error"} {
+		for _, sub := range []string{"runtime", "second-connection"} {
+			add(c02Desc{History: "none", Placement: "platform-answered", IDClass: "current-again", Op: op, First: "platform", Submitter: sub, NExt: 1})
+			add(c02Desc{History: "ok", Placement: "platform-answered", IDClass: "current-again", Op: op, First: "platform", Submitter: sub, NExt: 2})
+		}
+	}
 	// a response whose upload is slow: it starts while its invocation is in flight and ends around / after
 	// that invocation's timeout and the dispatch of the next one
 	for _, h := range []string{"none", "ok"} {
@@ -285,6 +294,54 @@ func runC02(c *Ctx, d c02Desc) {
 	}
 	if d.Placement == "slow-upload" {
 		runC02SlowUpload(c, w, d, rtNext)
+		return
+	}
+	if d.Placement == "platform-answered" {
+		hk.Hold("invoke.releaseFailed", 0)
+		inv := w.E.InvokeAsync([]byte("event-B"), vh.InvokeOpts{})
+		ev := rtNext.Wait(8 * time.Second)
+		if ev == nil || ev.Status != 200 {
+			c.Inconclusive("event not delivered")
+			return
+		}
+		idB := ev.ReqID()
+		// the extension dies in the middle of the invocation
+		if p := w.E.WaitExt("ext0", curGen, 3*time.Second); p != nil {
+			p.RequestExit(vh.Exit{Code: 7})
+		}
+		if !hk.WaitHeld("invoke.releaseFailed", 8*time.Second) {
+			c.Inconclusive("pause point invoke.releaseFailed not reached")
+			return
+		}
+		c.Clause("platform_answered_window_reached")
+		pt := rt
+		if d.Submitter == "second-connection" {
+			pt = rt2
+		}
+		r := submit(pt, d.Op, idB, []byte("too-late-from-the-runtime"))
+		c.Check(r.Err != nil || (r.Status >= 400 && r.Status < 500), "second_submission_refused", fmt.Sprintf("C02/after-platform-answer/%s/%d-%s", d.Op, r.Status, r.Etype), fmt.Sprintf("the runtime's %s for an invocation the platform had already answered (extension crash) got %d %s instead of a client error", d.Op, r.Status, r.Etype), nil)
+		hk.Release("invoke.releaseFailed")
+		if !inv.Wait(10 * time.Second) {
+			c.Check(false, "in_flight_completes", "C02/in-flight-disturbed/platform-answered", "the failed invocation never returned", nil)
+			return
+		}
+		var fe funcErr
+		okBody := json.Unmarshal(inv.W.Body(), &fe) == nil && fe.ErrorType == "Extension.Crash" && inv.W.NWrites() == 1
+		c.Check(okBody, "caller_gets_first_only", "C02/caller-body/platform-answered", "the caller did not receive exactly the platform's answer", trunc(inv.W.Body()))
+		// the next invocation is served by a new generation
+		inv2 := w.E.InvokeAsync([]byte("event-C"), vh.InvokeOpts{})
+		if attach() {
+			if ev2 := rtNext.Wait(8 * time.Second); ev2 != nil && ev2.Status == 200 {
+				rt.Respond(ev2.ReqID(), []byte("resp-C"), nil)
+				vh.Go(func() *vh.Resp { return rt.Next() })
+			}
+		}
+		c.Check(inv2.Wait(10*time.Second) && inv2.Err == nil && bytes.Equal(inv2.W.Body(), []byte("resp-C")), "later_invocation_ok", "C02/later-invocation/platform-answered", "the following invocation did not succeed with its own body", vh.ErrName(inv2.Err))
+		c.SetHooks(hk.Arrived())
+		c.SetTrace(d.id(), true)
+		if c.WantSample || c.Violated() {
+			c.SetSample(sampleLog(w, 150))
+		}
 		return
 	}
 
